@@ -53,7 +53,7 @@ func c01Oracle(pc progCase, r *Result) {
 		r.Note("rejected:"+r.cur+":"+normMsg(msg[0]), 1)
 		return
 	}
-	ref := hs.Eval(pc.Prog, &pc.P, refBudget)
+	ref := pc.eval()
 	for _, t := range pc.Tags {
 		if strings.HasPrefix(t, "unspec:") {
 			ref.Unspec = t[7:]
@@ -63,7 +63,7 @@ func c01Oracle(pc progCase, r *Result) {
 		r.Note("unspecified:"+ref.Unspec, 1)
 		return
 	}
-	o := RunVM(a, defaultOpts())
+	o := RunVM(a, pc.opts())
 	r.Trans(3)
 	r.Outcome(o.Class)
 	r.Obs(o)
